@@ -3,18 +3,18 @@ SRC = ['repo:src/Mutex.cpp', 'repo:src/Semaphore.cpp', 'repo:src/Signal.cpp', 'r
 UNITS = [dict(
     name='sync', harness='harness/c11_sync.cpp', sources=SRC, native=False,
     defines={'quick': {'VF_OPS': 1}, 'thorough': {'VF_OPS': 2}},
-    entries=['mutex', 'semaphore', 'signal_', 'signal_pulse', 'monitor', 'thread_restart', 'deadlines'],
+    entries=['mutex', 'semaphore', 'signal_', 'monitor', 'thread_restart', 'deadlines'],
     opts={'quick': {'unwind': 64, 'max_instr': 300000, 'preempt': 2, 'timeout_ms': 4000}, 'thorough': {'unwind': 64, 'max_instr': 300000, 'preempt': 3, 'timeout_ms': 4000}},
     split={'quick': 14, 'thorough': 16},
     budget={'quick': 285, 'thorough': 3000},
     validate=[],
 )]
 import copy as _copy
-_u = _copy.deepcopy(UNITS[0]); _u['name'] = 'sync4'; _u['entries'] = ['monitor2']
-_u['opts'] = {'quick': dict(UNITS[0]['opts']['quick'], preempt=0), 'thorough': dict(UNITS[0]['opts']['thorough'], preempt=1)}
-UNITS.append(_u)      # four threads: every choice of the next thread at blocking points, no (thorough: one) preemption
+_u = _copy.deepcopy(UNITS[0]); _u['name'] = 'sync4'; _u['entries'] = ['signal_pulse', 'monitor2']
+_u['opts'] = {'quick': dict(UNITS[0]['opts']['quick'], preempt=0), 'thorough': dict(UNITS[0]['opts']['thorough'], preempt=0)}
+UNITS.append(_u)      # the scenarios that wait until n threads are blocked: every choice of the next thread at blocking / yielding points, no preemption (one preemption: 6.8 million schedules, no verdict in 5 min)
 BOUNDS = {
-    'quick': 'Mutex: 3 threads (two lock/unlock, one of them re-entrantly, one tryLock) + main; Semaphore: initial value 0..1, two waiters (wait / tryWait / timed wait) and one or two signals; Signal: initially set or not, two waiters (untimed / timed), one setter, then reset; Signal pulse: one or two threads blocked in wait(), then set(); reset() at once (all of them must return); Monitor with two waiters and two set() calls after both wait (4 threads, no preemption; thorough: 1); Thread: start, refused second start, join result, restart after join; Monitor: 0..2 set() calls left pending, one waiter (untimed / timed) and one setter that sets after the waiter took the monitor; every interleaving with <= 2 preemptions at pthread calls and atomic accesses, spurious condition wake-ups and time-outs injected by the scheduler; deadline arithmetic of the three timed waits for every timeout in [0, 2^30) ms (one symbolic value, decided by the solver)',
+    'quick': 'Mutex: 3 threads (two lock/unlock, one of them re-entrantly, one tryLock) + main; Semaphore: initial value 0..1, two waiters (wait / tryWait / timed wait) and one or two signals; Signal: initially set or not, two waiters (untimed / timed), one setter, then reset; Signal pulse: one or two threads blocked in wait(), then set(); reset() at once (all of them must return); Monitor with two waiters and two set() calls after both wait (4 threads, no preemption; the Signal pulse scenario runs under the same bound); Thread: start, refused second start, join result, restart after join; Monitor: 0..2 set() calls left pending, one waiter (untimed / timed) and one setter that sets after the waiter took the monitor; every interleaving with <= 2 preemptions at pthread calls and atomic accesses, spurious condition wake-ups and time-outs injected by the scheduler; deadline arithmetic of the three timed waits for every timeout in [0, 2^30) ms (one symbolic value, decided by the solver)',
     'thorough': '2 lock/unlock rounds per thread, <= 3 preemptions',
 }
 OUTSIDE = 'glibc / kernel behaviour (pthreads are a model written from POSIX: mutex with owner and recursion count honouring the attribute type, condition variable with waiter set, semaphore counter, thread create/join), weak memory, more than 4 threads'
